@@ -36,19 +36,28 @@ def reader_rows(ctx):
                 if x[0] == 'call' and x[1].endswith('::from_str_radix') and len(x[2]) == 2:
                     m = re.search(r'<impl ([iu]\d+|[iu]size)>::from_str_radix$', x[1])
                     ity = m.group(1) if m else '?'
-                    g = re.search(r'Captures::name\([^"]*"(\w+)"\) as Some\.0$', render(x[2][0]))
-                    radix = strip(x[2][1])
-                    if not g or radix[0] != 'const':
-                        raise AnchorLost('number_regex_parser: from_str_radix with a non-constant group / radix (%s, %s)' % (render(x[2][0])[:60], render(radix)[:20]))
                     loc = x[3]['loc'] if isinstance(x[3], dict) else st['loc']
-                    rows[g.group(1)] = [radix[2], None, ity, loc, None]
+                    # group and radix may both be components of one merged row (a table / tuple selected earlier): expand them
+                    # together, and with them the NumberType stored next to the value
+                    from ..facts import joint_alternatives, _spine_phi, _phi_key
+                    te = b.expr(st['ops'][1])
+                    shared = {_phi_key(p_) for p_ in (_spine_phi(x[2][0]), _spine_phi(x[2][1])) if p_ is not None}
+                    same_row = _spine_phi(te) is not None and _phi_key(_spine_phi(te)) in shared
+                    for (ga, ra, ta), jc in joint_alternatives(b, [x[2][0], x[2][1]] + ([te] if same_row else [('top', 'n/a')])):
+                        g = re.search(r'Captures::name\([^"]*"(\w+)"\)( as Some\.0)?$', render(ga))
+                        radix = strip(ra)
+                        if not g or radix[0] != 'const':
+                            raise AnchorLost('number_regex_parser: from_str_radix with a non-constant group / radix (%s, %s)' % (render(ga)[:60], render(radix)[:20]))
+                        t2 = strip(ta)
+                        ty_here = t2[1].rsplit('::', 1)[1] if t2[0] == 'aggr' and t2[1].startswith('types::NumberType::') else None
+                        rows[g.group(1)] = [radix[2], ty_here, ity, loc, None]
         for a, conds in alternatives(b, b.expr(st['ops'][1])):
             a2 = strip(a)
             if a2[0] != 'aggr' or not a2[1].startswith('types::NumberType::'):
                 continue
             cs = [cond_str(d, v) for d, v in conds]
             for g, row in rows.items():
-                if any(re.search(r'Captures::name\(.*"%s"\)\)=\[1\]' % g, c) for c in cs):
+                if row[1] is None and any(re.search(r'Captures::name\(.*"%s"\)\)=\[1\]' % g, c) for c in cs):
                     row[1] = a2[1].rsplit('::', 1)[1]
     return b, rows
 
@@ -190,7 +199,7 @@ def b2_width(ctx):
             continue
         if pr['cast'] is None:
             ctx.finding('B2', '%s/no-cast' % ntype, 'NumberType::%s is printed from %s without an integer cast' % (ntype, pr['src']), site=pr['loc'])
-        elif bits(pr['cast']) < bits(ity):
+        elif bits(pr['cast']) < bits(ity) or (ity.startswith('u') and pr['cast'].startswith('i') and bits(pr['cast']) <= bits(ity)):
             ctx.finding('B2', 'print-cast-narrower-than-reader/%s' % ntype,
                         'NumberType::%s is printed through `as %s` but literals are read as %s: integers above %s::MAX print as %s::MAX, not as themselves' % (ntype, pr['cast'], ity, pr['cast'], pr['cast']), site=pr['loc'])
         else:
